@@ -45,16 +45,20 @@ def is_opt_instant(t):
     return t.get("self", "").replace(" ", "") in ("std::option::Option<web_time::Instant>", "std::option::Option<std::time::Instant>", "core::option::Option<web_time::Instant>")
 
 
-def ev(b, e, asg, env, depth=0):
+def ev(b, e, asg, env, depth=0, bind=None, level=0):
     """Abstract value of expression e in cell asg: ('none',) | ('some', frozenset(sources), frozenset(ops)) for Options,
     ('inst', sources, ops) for Instants."""
     if depth > 30:
         raise Undecided("expression too deep")
     t = e[0]
     r = render(e)
-    if t == "field" and e[2] == "expires" and e[1][0] == "arg":
+    if t == "arg" and bind is not None:
+        if e[1] in bind:
+            return bind[e[1]]
+        raise Undecided("parameter %s of the helper is not an expiry value" % r)
+    if bind is None and t == "field" and e[2] == "expires" and e[1][0] == "arg":
         return ("none",) if asg["E"] == "None" else ("some", frozenset(["peer"]), frozenset())
-    if re.match(EXPIRATION, r) and e[0] == "call":
+    if bind is None and re.match(EXPIRATION, r) and e[0] == "call":
         return ("none",) if asg["X"] == "None" else ("some", frozenset(["local"]), frozenset())
     if t == "local":
         d = env.get(e[1])
@@ -64,28 +68,28 @@ def ev(b, e, asg, env, depth=0):
                 raise Undecided("local %s has %d definitions on this path" % (r, len(ds)))
             d = (ds[0][0], ds[0][1], ds[0][2])
         ee = b.rvalue_expr(b.blocks[d[1]]["stmts"][d[2]]["r"]) if d[0] == "stmt" else b.call_expr(b.blocks[d[1]]["term"], d[1])
-        return ev(b, ee, asg, env, depth + 1)
+        return ev(b, ee, asg, env, depth + 1, bind, level)
     if t == "agg" and e[1] == "adt" and strip_generics(e[2]).endswith("option::Option"):
         if e[3] == "None":
             return ("none",)
-        v = ev(b, e[4][0][1], asg, env, depth + 1)
+        v = ev(b, e[4][0][1], asg, env, depth + 1, bind, level)
         if v[0] != "inst":
             raise Undecided("Some(<non-instant>)")
         return ("some", v[1], v[2])
     if t == "field" and e[1][0] == "downcast" and e[1][2] == "Some":
-        v = ev(b, e[1][1], asg, env, depth + 1)
+        v = ev(b, e[1][1], asg, env, depth + 1, bind, level)
         if v[0] != "some":
             raise Undecided("@Some.0 of a value that is None in this cell")
         return ("inst", v[1], v[2])
     if t == "call":
         name = strip_generics(e[1])
         if re.search(r"option::Option::or$", name):
-            a = ev(b, e[2][0], asg, env, depth + 1)
-            return a if a[0] == "some" else ev(b, e[2][1], asg, env, depth + 1)
+            a = ev(b, e[2][0], asg, env, depth + 1, bind, level)
+            return a if a[0] == "some" else ev(b, e[2][1], asg, env, depth + 1, bind, level)
         m = re.search(r"(cmp::Ord::|cmp::)(min|max)$", name)
         if m:
-            a = ev(b, e[2][0], asg, env, depth + 1)
-            c = ev(b, e[2][1], asg, env, depth + 1)
+            a = ev(b, e[2][0], asg, env, depth + 1, bind, level)
+            c = ev(b, e[2][1], asg, env, depth + 1, bind, level)
             op = m.group(2)
             if a[0] == "inst" and c[0] == "inst":
                 ops = a[2] | c[2] | (frozenset([op]) if a[1] != c[1] else frozenset())
@@ -100,8 +104,47 @@ def ev(b, e, asg, env, depth=0):
                 return ("some", a[1] | c[1], ops)
             raise Undecided("min/max of mixed kinds")
         if re.search(r"Clone>?::clone$|convert::Into>?::into$|convert::From>?::from$", name) and len(e[2]) == 1:
-            return ev(b, e[2][0], asg, env, depth + 1)
+            return ev(b, e[2][0], asg, env, depth + 1, bind, level)
+        # a crate-local helper (e.g. an extracted `merge_expiration(received, local)`): evaluate its body, one level, with the
+        # abstract values of the actual arguments bound to its parameters
+        callee = b.prog.by_npath(b.crate).get(name) if hasattr(b.prog, "by_npath") else None
+        if callee is not None and callee is not b and level < 2:
+            vals = []
+            for a in e[2]:
+                try:
+                    vals.append(ev(b, a, asg, env, depth + 1, bind, level))
+                except Undecided:
+                    vals.append(None)
+            return ev_callee(callee, vals, level + 1)
     raise Undecided("unmodelled expression %s" % r[:120])
+
+
+def ev_callee(cb, vals, level):
+    """abstract result of calling crate-local fn cb with abstract argument values (None = not an expiry value)"""
+    bindv = {i + 1: v for i, v in enumerate(vals) if v is not None}
+    atoms, asg2 = [], {}
+    for i, v in bindv.items():
+        if v[0] in ("none", "some"):
+            nm = cb.names.get(i, "#%d" % i)
+            atoms.append((r"^discr\(%s\)$" % re.escape(nm), "A%d" % i))
+            asg2["A%d" % i] = "None" if v[0] == "none" else "Some"
+    rets = {}
+    for d in cb.defs.get(0, []):
+        rets.setdefault(d[1], []).append(d)
+    try:
+        paths, _ = lib.cell_paths(cb, asg2, atoms, set(rets), 0)
+    except mir.RuleError as ex:
+        raise Undecided("helper %s: %s" % (cb.short, ex))
+    out = set()
+    for rb, env in paths:
+        if rb is None:
+            continue
+        for d in rets[rb]:
+            ee = cb.rvalue_expr(d[3]) if d[0] == "stmt" else cb.call_expr(d[3], d[1])
+            out.add(ev(cb, ee, asg2, env, 0, bindv, level))
+    if len(out) != 1:
+        raise Undecided("helper %s yields %d different abstract results" % (cb.short, len(out)))
+    return out.pop()
 
 
 def check(ctx):
